@@ -152,6 +152,48 @@ public:
     }
   }
 
+  // assertion conditions biased towards provable ones (C02 needs safe/unreachable
+  // verdicts): loose bounds, the most recent guard (possibly weakened), or arbitrary
+  bool have_last_cst = false;
+  cst_t last_cst;
+  cst_t remember(const cst_t &c) {
+    last_cst = c;
+    have_last_cst = true;
+    return c;
+  }
+  cst_t assert_constraint() {
+    static const int64_t loose[] = {10, 100, 1000, 1 << 20};
+    switch (t.pick(5)) {
+    case 0: return constraint();
+    case 1: {
+      var_t v = ivar();
+      z_number c(loose[t.pick(4)]);
+      return t.flag() ? cst_t(lin_t(v) <= lin_t(c)) : cst_t(lin_t(v) >= lin_t(z_number(0) - c));
+    }
+    case 2:
+      if (have_last_cst) {
+        cst_t c = last_cst;
+        if (c.is_inequality() && t.flag()) // weaken e <= 0 to e <= k
+          return cst_t(c.expression() - lin_t(z_number((int64_t)t.pick(4))), cst_t::INEQUALITY);
+        return c;
+      }
+      return constraint();
+    case 3: {
+      var_t x = ivar(), y = ivar();
+      return cst_t(lin_t(x) - lin_t(y) <= lin_t(z_number(loose[t.pick(4)])));
+    }
+    default: {
+      var_t v = ivar();
+      z_number c = z_number(t.small_int(6));
+      switch (t.pick(3)) {
+      case 0: return cst_t(lin_t(v) >= lin_t(c));
+      case 1: return cst_t(lin_t(v) <= lin_t(c));
+      default: return cst_t(lin_t(v) == lin_t(c));
+      }
+    }
+    }
+  }
+
   // ---- statements -----------------------------------------------------------------
   void stmt(block_t &b) {
     // weighted choice over the enabled kinds; 0 -> plain assignment
@@ -165,7 +207,7 @@ public:
     if (cap(CAP_CAST) && !p.wides.empty()) kinds.push_back(5);
     if (cap(CAP_SELECT)) kinds.push_back(6);
     if (cap(CAP_HAVOC)) kinds.push_back(7);
-    if (cap(CAP_ASSERT)) { kinds.push_back(8); }
+    if (cap(CAP_ASSERT)) { kinds.push_back(8); kinds.push_back(8); }
     kinds.push_back(9); // assume in the middle of a block
     if (cap(CAP_UNREACHABLE)) kinds.push_back(10);
     if (cap(CAP_BOOL) && !p.bools.empty()) { kinds.push_back(11); kinds.push_back(11); kinds.push_back(11); }
@@ -244,8 +286,8 @@ public:
     }
     case 6: b.select(ivar(), constraint(), linexp(2), linexp(2)); break;
     case 7: b.havoc(ivar()); break;
-    case 8: b.assertion(constraint(), crab::cfg::debug_info("verif", 1, 1, o.first_assert_id + p.n_asserts)); p.n_asserts++; break;
-    case 9: b.assume(constraint()); break;
+    case 8: b.assertion(assert_constraint(), crab::cfg::debug_info("verif", 1, 1, o.first_assert_id + p.n_asserts)); p.n_asserts++; break;
+    case 9: b.assume(remember(constraint())); break;
     case 10:
       if (t.pick(4) == 0) b.unreachable(); else b.assign(ivar(), linexp());
       break;
@@ -278,7 +320,7 @@ public:
       break;
     case 6: b.havoc(bvar()); break;
     case 7: b.zext(bvar(), ivar()); break; // bool -> int
-    case 8: b.select(ivar(), bvar(), linexp(1), linexp(1)); break; // select on a boolean (b >= 1)
+    case 8: b.sext(bvar(), ivar()); break; // bool -> int (0/-1 undocumented: the interpreter truncates on true)
     default: b.bool_assign(bvar(), constraint()); break;
     }
   }
@@ -405,7 +447,7 @@ public:
       ge.bool_not_assume(c);
       return;
     }
-    cst_t c = constraint();
+    cst_t c = remember(constraint());
     gt.assume(c);
     if (mode == 5)
       ge.assume(constraint()); // unrelated guard
